@@ -97,6 +97,15 @@ pub fn gen_plan(rng: &mut Prng) -> DotPlan {
             1 | 2 => f = fast::with_near_twin(rng, &f),
             _ => {}
         }
+        if rng.chance(1, 6) {
+            // `long-list`: a quantifier that binds many variables (its list lives in one label)
+            let k = *rng.pick(&[9usize, 10, 11, 13, 19, 20, 21, 39, 64, 65]);
+            let names: Vec<String> = (0..k).map(|i| format!("q{i}")).collect();
+            f = F::Quant(rng.coin(), names, Box::new(f));
+            if rng.coin() {
+                f = F::Bin(fast::BinOp::And, Box::new(f), Box::new(F::Var("q3".into())));
+            }
+        }
         Some((f, rng.next_u64(), rng.below(3) as u8))
     } else {
         None
@@ -532,6 +541,14 @@ fn cmp_name(op: CountableOperator) -> &'static str {
     }
 }
 
+/// The term with every run of white space in a label collapsed into one blank.
+fn norm_term(t: &Term) -> Term {
+    Term {
+        label: t.label.split_whitespace().collect::<Vec<_>>().join(" "),
+        children: t.children.iter().map(|(e, c)| (e.clone(), norm_term(c))).collect(),
+    }
+}
+
 fn distinct_subterms(t: &Term, acc: &mut Vec<Term>) {
     if !acc.contains(t) {
         acc.push(t.clone());
@@ -591,7 +608,8 @@ fn judge_tree(plan: &DotPlan, stats: &mut Stats, vs: &mut Vec<Violation>, trace:
     match g.to_term(roots[0]) {
         Err(e) => vs.push(viol("D6", "term", e)),
         Ok(got) => {
-            if got != want {
+            // how a label is laid out (line breaks in a long list) is not part of the tree
+            if norm_term(&got) != norm_term(&want) {
                 vs.push(viol("D6", "term", format!("the export of `{text}` reads back as a different term")));
             }
         }
